@@ -46,6 +46,7 @@ NameOfText(s) == CHOOSE n \in DOMAIN NT : NT[n] = s
 \* AST constructors
 \* ---------------------------------------------------------------------------
 Lit(v)            == [k |-> "lit", v |-> v]
+LitRaw(v, txt)    == [k |-> "lit", v |-> v, raw |-> txt]      \* the same value, written txt in the source
 LI(i)             == Lit(VI(i))
 LS(s)             == Lit(VS(s))
 LB(b)             == Lit(VB(b))
@@ -120,8 +121,11 @@ InRange53(n) == n > -Lim53 /\ n < Lim53
 RInt(n, calls) == IF InRange53(n) THEN ROk(VI(n), calls) ELSE RErr("frag", calls)
 
 \* a "matches" pattern is the text /lit/ with lit free of regex metacharacters: contains
+\* /lit/i is the same without regard to (ASCII) case
 IsSimplePattern(s) == Len(s) >= 2 /\ s[1] = 47 /\ s[Len(s)] = 47
+IsSimplePatternI(s) == Len(s) >= 3 /\ s[1] = 47 /\ s[Len(s) - 1] = 47 /\ s[Len(s)] = 105
 PatternBody(s) == SubSeq(s, 2, Len(s) - 1)
+PatternBodyI(s) == SubSeq(s, 2, Len(s) - 2)
 
 BinOp(op, a, b, calls) ==
     CASE op \in {"+", "-", "*"} ->
@@ -160,7 +164,9 @@ BinOp(op, a, b, calls) ==
            IF a.t = "str" /\ b.t = "str" THEN ROk(VB(IsSuffixOf(b.s, a.s)), calls) ELSE RErr("frag", calls)
       [] op = "matches" ->
            IF a.t = "str" /\ b.t = "str" /\ IsSimplePattern(b.s)
-           THEN ROk(VB(Contains(a.s, PatternBody(b.s))), calls) ELSE RErr("frag", calls)
+           THEN ROk(VB(Contains(a.s, PatternBody(b.s))), calls)
+           ELSE IF a.t = "str" /\ b.t = "str" /\ IsSimplePatternI(b.s)
+           THEN ROk(VB(Contains(Lower(a.s), Lower(PatternBodyI(b.s)))), calls) ELSE RErr("frag", calls)
       [] OTHER -> RErr("frag", calls)
 
 \* ---------------------------------------------------------------------------
@@ -335,23 +341,24 @@ ApplyBuiltin(f, v, args, calls) ==
 \* ---------------------------------------------------------------------------
 \* imports are lexical: collect them from the top level of a body
 \* ---------------------------------------------------------------------------
-RECURSIVE ImportAliases(_, _), FromImports(_, _)
-ImportAliases(body, acc) ==
+\* (self: the template the statements stand in -- a library named ./x or ../x is looked for next to it)
+RECURSIVE ImportAliasesIn(_, _, _), FromImportsIn(_, _, _)
+ImportAliasesIn(self, body, acc) ==
     IF body = <<>> THEN acc
     ELSE LET s == Head(body) IN
-         IF s.k = "import" /\ s.e.k = "lit" /\ s.e.v.t = "str" /\ TextIsName(s.e.v.s)
-         THEN ImportAliases(Tail(body), (s.al :> NameOfText(s.e.v.s)) @@ acc)
-         ELSE ImportAliases(Tail(body), acc)
-FromImports(body, acc) ==
+         IF s.k = "import" /\ s.e.k = "lit" /\ s.e.v.t = "str" /\ TextIsName(ResolveName(SelfText(self), s.e.v.s))
+         THEN ImportAliasesIn(self, Tail(body), (s.al :> NameOfText(ResolveName(SelfText(self), s.e.v.s))) @@ acc)
+         ELSE ImportAliasesIn(self, Tail(body), acc)
+FromImportsIn(self, body, acc) ==
     IF body = <<>> THEN acc
     ELSE LET s == Head(body) IN
-         IF s.k = "from" /\ s.e.k = "lit" /\ s.e.v.t = "str" /\ TextIsName(s.e.v.s)
-         THEN LET t == NameOfText(s.e.v.s)
+         IF s.k = "from" /\ s.e.k = "lit" /\ s.e.v.t = "str" /\ TextIsName(ResolveName(SelfText(self), s.e.v.s))
+         THEN LET t == NameOfText(ResolveName(SelfText(self), s.e.v.s))
                   add == [i \in 1..Len(s.names) |-> (s.als[i] :> [tpl |-> t, n |-> s.names[i]])]
                   RECURSIVE Fold(_, _)
                   Fold(i, a) == IF i > Len(add) THEN a ELSE Fold(i + 1, add[i] @@ a)
-              IN FromImports(Tail(body), Fold(1, acc))
-         ELSE FromImports(Tail(body), acc)
+              IN FromImportsIn(self, Tail(body), Fold(1, acc))
+         ELSE FromImportsIn(self, Tail(body), acc)
 
 \* ---------------------------------------------------------------------------
 \* worlds and activations
@@ -372,14 +379,14 @@ MkA(W, self, sb) ==
     [W |-> W, self |-> self, sb |-> sb,
      chain |-> <<self>>,                 \* extends chain, most derived first
      blk |-> "", lvl |-> 0,              \* block being rendered and its level in chain
-     al |-> IF self \in DOMAIN W.tp THEN ImportAliases(W.tp[self], EmptyFn) ELSE EmptyFn,
+     al |-> IF self \in DOMAIN W.tp THEN ImportAliasesIn(self, W.tp[self], EmptyFn) ELSE EmptyFn,
                                          \* alias -> template name (import ... as al)
-     fm |-> IF self \in DOMAIN W.tp THEN FromImports(W.tp[self], EmptyFn) ELSE EmptyFn,
+     fm |-> IF self \in DOMAIN W.tp THEN FromImportsIn(self, W.tp[self], EmptyFn) ELSE EmptyFn,
                                          \* local name -> [tpl, n] (from ... import)
      depth |-> 0]
 \* code of template t runs (a block body taken from another level of the chain)
-WithSelf(A, t) == [A EXCEPT !.self = t, !.al = ImportAliases(A.W.tp[t], EmptyFn),
-                            !.fm = FromImports(A.W.tp[t], EmptyFn)]
+WithSelf(A, t) == [A EXCEPT !.self = t, !.al = ImportAliasesIn(t, A.W.tp[t], EmptyFn),
+                            !.fm = FromImportsIn(t, A.W.tp[t], EmptyFn)]
 
 MaxDepth == 6
 
@@ -551,6 +558,13 @@ Eval(e, A, sc, calls) ==
                      THEN LET vals == {as.v.xs[i].i : i \in 1..Len(as.v.xs)} IN
                           ROk(VI(IF e.f = "max" THEN CHOOSE m \in vals : \A x \in vals : x <= m ELSE CHOOSE m \in vals : \A x \in vals : m <= x), as.calls)
                      ELSE RErr("frag", as.calls)
+           ELSE IF e.f = "merge" /\ e.f \notin DOMAIN A.fm /\ ~HasMacro(A.W, A.self, e.f) THEN
+                \* the function form of the merge filter: a new list of the elements of all its list arguments
+                LET as == EvalSeq(e.args, A, sc, calls) IN
+                IF ~as.ok THEN as
+                ELSE IF Len(as.v.xs) >= 2 /\ (\A i \in 1..Len(as.v.xs) : as.v.xs[i].t = "list")
+                     THEN ROk(VL(Flatten([i \in 1..Len(as.v.xs) |-> as.v.xs[i].xs])), as.calls)
+                     ELSE RErr("frag", as.calls)
            ELSE IF e.f = "range" /\ e.f \notin DOMAIN A.fm /\ ~HasMacro(A.W, A.self, e.f) THEN
                 LET as == EvalSeq(e.args, A, sc, calls) IN
                 IF ~as.ok THEN as
@@ -631,9 +645,15 @@ ExecLoop(s, items, i, A, st, n) ==
 \* extends chain of template t (most derived first); parent names may be dynamic
 ResolveChain(W, t, sc, A, calls) ==
     IF LoadErr(W, t) # "" THEN [ok |-> FALSE, err |-> LoadErr(W, t), chain |-> <<>>, calls |-> calls]
-    ELSE LET body == W.tp[t] IN
-         IF body # <<>> /\ body[1].k = "extends" THEN
-              LET r == Eval(body[1].e, A, sc, calls) IN
+    ELSE LET body == W.tp[t]
+             \* the extends tag stands at the top level of the child, first or after other definitions (blocks, macros,
+             \* imports, sets): wherever it stands it makes the template a child
+             xi == IF \E i \in 1..Len(body) : body[i].k = "extends"
+                   THEN CHOOSE i \in 1..Len(body) : body[i].k = "extends" /\ \A j \in 1..(i - 1) : body[j].k # "extends" ELSE 0 IN
+         IF xi > 0 /\ \E j \in 1..(xi - 1) : body[j].k \notin {"block", "macro", "import", "from", "set", "comment"}
+         THEN [ok |-> FALSE, err |-> "frag", chain |-> <<>>, calls |-> calls]       \* (output before the tag: not determined)
+         ELSE IF xi > 0 THEN
+              LET r == Eval(body[xi].e, A, sc, calls) IN
               IF ~r.ok THEN [ok |-> FALSE, err |-> r.err, chain |-> <<>>, calls |-> r.calls]
               ELSE IF r.v.t # "str" \/ ~TextIsName(ResolveName(SelfText(t), r.v.s)) THEN [ok |-> FALSE, err |-> "notfound", chain |-> <<>>, calls |-> r.calls]
               ELSE LET up == ResolveChain(W, NameOfText(ResolveName(SelfText(t), r.v.s)), sc, A, r.calls) IN
@@ -714,8 +734,9 @@ ExecStmt(s, A, st) ==
       [] s.k \in {"import", "from"} ->       \* alias binding is static (ImportAliases / FromImports);
            LET r == Eval(s.e, A, st.sc, st.calls) IN          \* the statement itself loads the library
            IF ~r.ok THEN StErr(st, r.err, r.calls)
-           ELSE IF r.v.t # "str" \/ ~TextIsName(r.v.s) THEN StErr(st, "notfound", r.calls)
-           ELSE IF LoadErr(A.W, NameOfText(r.v.s)) # "" THEN StErr(st, LoadErr(A.W, NameOfText(r.v.s)), r.calls)
+           ELSE IF r.v.t # "str" \/ ~TextIsName(ResolveName(SelfText(A.self), r.v.s)) THEN StErr(st, "notfound", r.calls)
+           ELSE IF LoadErr(A.W, NameOfText(ResolveName(SelfText(A.self), r.v.s))) # ""
+                THEN StErr(st, LoadErr(A.W, NameOfText(ResolveName(SelfText(A.self), r.v.s))), r.calls)
            ELSE [st EXCEPT !.calls = r.calls]
       [] s.k = "include" ->
            LET r == Eval(s.e, A, st.sc, st.calls) IN
